@@ -231,6 +231,7 @@ func checkC15(w *World, r *Report) {
 	// ---- R15.2
 	checkLoaderLoops(w, r)
 	checkModTimeSources(w, r)
+	checkExistsAndRegistry(w, r)
 	// loaders are only appended
 	n2 := 0
 	for _, fn := range w.pkgFuncs() {
@@ -1173,4 +1174,130 @@ func (w *World) loadNilRegion() (*ssa.Function, *ssa.BasicBlock) {
 		}
 	}
 	return nilFn, nil
+}
+
+// checkExistsAsksStorage — R15.7: a file-backed loader answers "does it exist" by looking.  In the
+// Exists method of every Loader implementation whose Load reads files, every `return true` lies
+// behind a file-system query (os.Stat / Lstat / Open) on every path; an answer from memory ("it
+// was found here before") keeps a ChainLoader from falling through to the loader that still has
+// the name once the file is gone.
+// checkRegistryNeverReplaced — R15.6: the name → template table of an engine is created once.
+// Nothing but the constructor assigns Engine.templates as a whole: replacing the map (on a cache
+// toggle, on a reload) drops every registered and cached template at once, so a registered name
+// is "not found" although nothing unregistered it.
+func checkExistsAndRegistry(w *World, r *Report) {
+	iface, ok := w.named("Loader").Underlying().(*types.Interface)
+	if !ok {
+		return
+	}
+	usesFiles := func(fn *ssa.Function) bool {
+		found := false
+		seen := map[*ssa.Function]bool{}
+		var walk func(f *ssa.Function, d int)
+		walk = func(f *ssa.Function, d int) {
+			if f == nil || seen[f] || d > 3 || found {
+				return
+			}
+			seen[f] = true
+			instrsOf(f, func(in ssa.Instruction) {
+				if c, ok := in.(ssa.CallInstruction); ok {
+					if g := calleeFunc(c); g != nil && g.Pkg() != nil && g.Pkg().Path() == "os" {
+						found = true
+					}
+					if h := c.Common().StaticCallee(); h != nil && isTwigFn(h) {
+						walk(h, d+1)
+					}
+				}
+			})
+		}
+		walk(fn, 0)
+		return found
+	}
+	isStat := func(in ssa.Instruction) bool {
+		c, ok := in.(ssa.CallInstruction)
+		if !ok {
+			return false
+		}
+		if g := calleeFunc(c); g != nil && g.Pkg() != nil && g.Pkg().Path() == "os" {
+			switch g.Name() {
+			case "Stat", "Lstat", "Open", "ReadFile", "OpenFile":
+				return true
+			}
+		}
+		// a helper of the package that does the query on every path to a true/non-error result
+		if h := c.Common().StaticCallee(); h != nil && isTwigFn(h) && len(h.Blocks) > 0 {
+			st := false
+			instrsOf(h, func(x ssa.Instruction) {
+				if c2, ok := x.(ssa.CallInstruction); ok {
+					if g := calleeFunc(c2); g != nil && g.Pkg() != nil && g.Pkg().Path() == "os" && (g.Name() == "Stat" || g.Name() == "Lstat" || g.Name() == "Open") {
+						st = true
+					}
+				}
+			})
+			return st
+		}
+		return false
+	}
+	n := 0
+	for _, fn := range w.pkgFuncs() {
+		if fn.Name() != "Exists" || fn.Signature.Recv() == nil || fn.Synthetic != "" {
+			continue
+		}
+		rt := fn.Signature.Recv().Type()
+		if !types.Implements(rt, iface) && !types.Implements(types.NewPointer(deref(rt)), iface) {
+			continue
+		}
+		var load *ssa.Function
+		if nm, ok := deref(rt).(*types.Named); ok {
+			if m := w.tryMethod(nm.Obj().Name(), "Load"); m != nil {
+				load = w.ssaFunc(m)
+			}
+		}
+		if load == nil || !usesFiles(load) {
+			continue // memory-backed loaders answer from their table by definition
+		}
+		n++
+		construct := "Exists asks the file system before answering true"
+		bad := ""
+		instrsOf(fn, func(in ssa.Instruction) {
+			ret, ok := in.(*ssa.Return)
+			if !ok || bad != "" || len(ret.Results) != 1 {
+				return
+			}
+			if isConstBool(retResults(ret)[0], false) {
+				return
+			}
+			if found, path := existsPathAvoiding(fn, in, isStat, nil); found {
+				bad = w.posOf(ret.Pos()) + " (path " + strings.Join(path, " → ") + ")"
+			}
+		})
+		if bad == "" {
+			r.ok("R15.7", ssaName(fn), construct, w.posOf(fn.Pos()), "every result that can be true follows a file-system query", true)
+		} else {
+			r.bad("R15.7", ssaName(fn), construct, w.posOf(fn.Pos()), "Exists can answer true at "+bad+" without looking at the file system: a file that was found once and has since been removed is still reported as present, so a ChainLoader asks this loader (and fails) instead of going on to the loader that has the name")
+		}
+	}
+	r.Counts["Exists methods of file-backed loaders"] = n
+
+	// R15.6
+	nStores := 0
+	for _, fn := range w.pkgFuncs() {
+		instrsOf(fn, func(in ssa.Instruction) {
+			st, ok := in.(*ssa.Store)
+			if !ok {
+				return
+			}
+			base, ok := fieldAddr(st.Addr, "Engine", "templates")
+			if !ok {
+				return
+			}
+			nStores++
+			if _, fresh := unspill(base).(*ssa.Alloc); fresh {
+				r.ok("R15.6", ssaName(fn), "Engine.templates is assigned", w.posOf(in.Pos()), "initialisation of an engine allocated in this function", false)
+			} else {
+				r.bad("R15.6", ssaName(fn), "Engine.templates is assigned", w.posOf(in.Pos()), "the whole name → template table of an existing engine is replaced: every template registered with RegisterString/RegisterTemplate and everything cached is dropped at once, so a name that was registered is reported as not found (or silently re-read from a loader) afterwards")
+			}
+		})
+	}
+	r.floor("assignments of Engine.templates", nStores, 1)
 }
